@@ -15,19 +15,34 @@ from mir import models as M
 class MirCrate:
     """MIR of one crate of the mirror, regenerated from the working tree on every run."""
 
-    def __init__(self, mirror, crate_dir, overflow_checks=True):
+    def __init__(self, mirror, crate_dir, overflow_checks=True, enum_crates=("common", "feel-number", "feel", "feel-parser", "model")):
+        cds = (crate_dir,) if isinstance(crate_dir, str) else tuple(crate_dir)
+        self.enums = collect_enums(mirror, tuple(dict.fromkeys(cds + tuple(enum_crates))))
         self.mirror = mirror
         self.crate_dir = crate_dir
         self.overflow_checks = overflow_checks
         t = time.time()
-        self.text = mir_dump(mirror, crate_dir, overflow_checks)
-        self.bodies = parse_mir(self.text)
+        self.crate_dirs = [crate_dir] if isinstance(crate_dir, str) else list(crate_dir)
+        self.crate_dir = self.crate_dirs[0]
+        self.bodies = {}
+        self.text = ""
+        for cd in self.crate_dirs:
+            txt = mir_dump(mirror, cd, overflow_checks)
+            self.text += txt
+            for name, b in parse_mir(txt).items():
+                b.crate = cd
+                if name in self.bodies:
+                    self.bodies[cd + "::" + name] = b
+                else:
+                    self.bodies[name] = b
         self.seconds = time.time() - t
-        log("MIR of %s (overflow-checks=%s): %d bodies, %d lines, %.1fs" % (crate_dir, overflow_checks, len(self.bodies),
+        log("MIR of %s (overflow-checks=%s): %d bodies, %d lines, %.1fs" % (",".join(self.crate_dirs), overflow_checks, len(self.bodies),
                                                                            self.text.count("\n"), self.seconds))
 
     def exec(self, enums=None, models=None, unwind=8, timeout_ms=30000):
-        ex = Exec(self.bodies, enums=enums, models=(models or []) + M.BASE_MODELS, unwind=unwind, timeout_ms=timeout_ms,
+        en = dict(self.enums)
+        en.update(enums or {})
+        ex = Exec(self.bodies, enums=en, models=(models or []) + M.BASE_MODELS, unwind=unwind, timeout_ms=timeout_ms,
                   crate_src=self.mirror.src)
         ex.overflow_checks = self.overflow_checks
         return ex
@@ -37,8 +52,26 @@ class MirCrate:
         for n in sorted(ex.inlined):
             b = self.bodies.get(n)
             if b is not None:
-                out.append(dict(fn=n, crate=self.crate_dir, mir_sha=text_hash(b.text), overflow_checks=self.overflow_checks))
+                out.append(dict(fn=n, crate=getattr(b, "crate", self.crate_dir), mir_sha=text_hash(b.text), overflow_checks=self.overflow_checks))
         return out
+
+
+def collect_enums(mirror, crate_dirs):
+    """enum name -> {variant: discriminant} from the sources of the given crates of the mirror (first crate wins on a clash)"""
+    import glob
+    import rsenum
+    out = {}
+    for c in crate_dirs:
+        for f in sorted(glob.glob(os.path.join(mirror.src, c, "src", "**", "*.rs"), recursive=True)):
+            if "/tests/" in f or f.endswith("/tests.rs"):
+                continue
+            try:
+                with open(f) as fh:
+                    for name, d in rsenum.enums_of(fh.read()).items():
+                        out.setdefault(name, d)
+            except Exception:
+                pass
+    return out
 
 
 def model_value(model, e):
@@ -57,7 +90,7 @@ def model_value(model, e):
 
 
 def decide(check, crate, oid, setup, post, replay=None, rb=None, unwind=8, enums=None, models=None, allow_panic=None,
-           max_cex=1, timeout_ms=30000, min_paths=1, note=None, known_predicates=None, budget_s=600):
+           max_cex=1, timeout_ms=30000, min_paths=1, note=None, known_predicates=None, budget_s=600, describe=None):
     """One obligation.
 
     setup(ex, st) -> (fname, args, inputs)         inputs: dict name -> z3 expr / python value (reported in counterexamples)
@@ -87,7 +120,13 @@ def decide(check, crate, oid, setup, post, replay=None, rb=None, unwind=8, enums
             ex.assume(st, z3.Not(fn(inputs)))
             applied.append(k["id"])
         labels_seen = set()
-        for o in ex.run(fname, args, st):
+        def cex_inputs(m):
+            if describe is not None:
+                return describe(m, inputs)
+            return {k: model_value(m, v) for k, v in inputs.items()}
+
+        outcomes = fname(ex, st) if callable(fname) else ex.run(fname, args, st)
+        for o in outcomes:
             detail["paths"] += 1
             if o.kind == "unwound":
                 detail["unwound"] += 1
@@ -101,7 +140,7 @@ def decide(check, crate, oid, setup, post, replay=None, rb=None, unwind=8, enums
                 r = ex.check()
                 if r == z3.sat:
                     m = ex.solver.model()
-                    cex.append(dict(label="panic: " + str(o.msg), inputs={k: model_value(m, v) for k, v in inputs.items()}))
+                    cex.append(dict(label="panic: " + str(o.msg), inputs=cex_inputs(m)))
                 elif r == z3.unknown:
                     status = "inconclusive"
                     detail["unknown"] = "panic path"
@@ -117,7 +156,7 @@ def decide(check, crate, oid, setup, post, replay=None, rb=None, unwind=8, enums
                 r = ex.check(z3.Not(p))
                 if r == z3.sat:
                     m = ex.solver.model()
-                    cex.append(dict(label=label, inputs={k: model_value(m, v) for k, v in inputs.items()}))
+                    cex.append(dict(label=label, inputs=cex_inputs(m)))
                 elif r == z3.unknown:
                     status = "inconclusive"
                     detail["unknown"] = label
